@@ -8,9 +8,11 @@
      kind      0 a TCP network client, 1 an RTU network client, 2 the serial client
      ctor      (optional last argument, default 0) WHICH public constructor made the client:
                TCP   0 NewTCPClientWithConfig(conf)  1 NewClient(conf)  2 NewClient(conf + the TCP functions)
-                     3 NewTCPClientWithConfig(conf + the RTU functions, which it must override)  4 NewTCPClient()
+                     3 NewTCPClientWithConfig(conf + the non-CRC RTU functions, which it must override)  4 NewTCPClient()
                RTU   0 NewRTUClientWithConfig(conf)  1 NewClient(conf + the RTU functions)
-                     2 NewRTUClientWithConfig(conf + the TCP functions, which it must override)  4 NewRTUClient()
+                     2 NewRTUClientWithConfig(conf + the TCP functions, which it must override)
+                     3 NewRTUClientWithConfig(conf + packet.AsRTUErrorPacket / ParseRTUResponse, the
+                       variants that do NOT check the CRC, which it must override)  4 NewRTUClient()
                serial 0..2 NewSerialClient(port, options in different orders / given twice)
                The model does NOT depend on it.  Of the configuration the model depends on: which
                pair asProtocolErrorFunc / parseResponseFunc ends up in the client (= kind), whether
@@ -29,8 +31,11 @@
      want      []  |  [0; projected response]  |  [1; unit; fc; code]     the reply the scripted device
                is sending (used only by the verdicts, never by the model)
      result    ok [tid; projected response] | err [value-was-nil; is-ClientError; class...] | panic | [99]
-               class: bare     0 plain (errors.New / fmt.Errorf), 60 context.Canceled,
-                               61 context.DeadlineExceeded, else DispPacket.proj_err
+               class: bare     0 plain (errors.New / fmt.Errorf), 60 exactly context.Canceled,
+                               61 exactly context.DeadlineExceeded (the harness cancels with a
+                               custom CAUSE: the result must be ctx.Err(), not context.Cause(ctx)),
+                               62 / 63 an error that only wraps them (never produced by the model),
+                               else DispPacket.proj_err
                       wrapped  50 ErrPacketTooLong, 51 ErrClientNotConnected, 40..43 the transport's own
                                error (SetWriteDeadline, Write, Read, Flush), 0 an anonymous errors.New
                                (timeout / no bytes), 60 / 61 a context error inside a
@@ -38,6 +43,7 @@
                [99]: the script ran out while the client was still reading
      trace     [0;bytes] BeforeWrite  [1;chunk;n;cls] AfterEachRead  [2;bytes] BeforeParse
                [3] Flush  [4;bytes] transport Write  [5;chunk;cls] transport Read  [6] SetWriteDeadline
+               [7] Bytes() of a user-defined request was called (see dec_req)
 
    The verdicts are the properties' own statements evaluated on the implementation's outcome; they
    use the script, Spec.v and CrcSpec.v, never ClientModel's functions (only its script datatypes,
@@ -78,8 +84,14 @@ Definition dec_script (v : val) : option script :=
   | _ => None
   end.
 (* Some None = nil request *)
+(* [1; name; args...]: the same request wrapped in a user-defined packet.Request whose Bytes() is not
+   idempotent: the k-th call returns the bytes with the first byte increased by k-1.  Do calls
+   Bytes() once (`c.do(ctx, req.Bytes(), req.ExpectedResponseLength())`), so what is written and
+   shown to BeforeWrite are the bytes of the first call = the wrapped request's; every call of
+   Bytes() is recorded in the trace as [7] *)
+Definition req_rolling (v : val) : bool := match v with VL (VI 1%Z :: _) => true | _ => false end.
 Definition dec_req (v : val) : option (option (creq * sreq)) :=
-  match v with
+  match (match v with VL (VI 1%Z :: r) => VL r | _ => v end) with
   | VL [] => Some None
   | VL (VB nm :: rest) =>
       match ctor_args (string_of_bytes nm) rest with
@@ -89,14 +101,15 @@ Definition dec_req (v : val) : option (option (creq * sreq)) :=
   | _ => None
   end.
 
-Record ccase := { cc_cfg : config; cc_req : option (creq * sreq); cc_script : script; cc_want : val; cc_ctor : Z }.
+Record ccase := { cc_cfg : config; cc_req : option (creq * sreq); cc_script : script; cc_want : val; cc_ctor : Z;
+                   cc_rolling : bool }.
 Definition dec_case_ctor (a : list val) (ctor : Z) : option ccase :=
   match a with
   | [VI k; VI conn; VI fl; VI hooks; rq; scv; want] =>
       match dec_kind k, dec_req rq, dec_script scv with
       | Some kd, Some r, Some s =>
           Some {| cc_cfg := {| c_kind := kd; c_connected := zbool conn; c_hooks := zbool hooks; c_flusher := zbool fl |};
-                  cc_req := r; cc_script := s; cc_want := want; cc_ctor := ctor |}
+                  cc_req := r; cc_script := s; cc_want := want; cc_ctor := ctor; cc_rolling := req_rolling rq |}
       | _, _, _ => None
       end
   | _ => None
@@ -152,7 +165,14 @@ Definition proj_result (x : outcome * list ev) : list val :=
 Definition run_case (c : ccase) (hooks : bool) : list val :=
   let cfg := {| c_kind := c_kind (cc_cfg c); c_connected := c_connected (cc_cfg c);
                 c_hooks := hooks; c_flusher := c_flusher (cc_cfg c) |} in
-  proj_result (client_do cfg (cc_script c) (option_map fst (cc_req c))).
+  let res := proj_result (client_do cfg (cc_script c) (option_map fst (cc_req c))) in
+  (* req.Bytes() is evaluated once, in Do, after the two argument checks *)
+  match res, cc_req c with
+  | [o; VL t], Some _ =>
+      if cc_rolling c && c_connected (cc_cfg c) && negb (val_eqb o out_of_script)
+      then [o; VL (VL [VI 7%Z] :: t)] else res
+  | _, _ => res
+  end.
 
 Definition blank_trace (l : list val) : list val :=
   match l with [o; _] => [o; VL []] | _ => l end.
@@ -500,6 +520,9 @@ Definition verdict_C08 (c : ccase) (o t : val) : N :=
             | (XNone, _) => NOT_JUDGED
             | (x, sizes) =>
                 if class_ok x o || flush_alt c x o then HOLDS
+                (* in particular a success although the context was done before this read is a
+                   violation -- unless a short ExpectedResponseLength had ended the call before
+                   (FC17: the region of [d7_region] is judged on the reads BEFORE this step) *)
                 else d7_region tcp (flush_fails c) sr is_exc sizes (length frame) o
             end
         | None => NOT_JUDGED
@@ -552,6 +575,7 @@ Definition written (t : list val) : option (list N) :=
 Definition hook_trace_exact (c : ccase) (o : val) (t0 t1 : list val) : bool :=
   val_eqb (VL t1)
     (VL (insert_hooks t0 ++ (if parser_reached c o then [VL [VI 2%Z; VB (consumed t0)]] else []))) &&
+  (length (filter (fun e => val_eqb e (VL [VI 7%Z])) t0) <=? 1)%nat &&   (* req.Bytes() called once *)
   match cc_req c, written t0 with
   | Some (q, sr), Some b =>
       (* the bytes written (and shown to BeforeWrite) are the specified ADU of the request *)
@@ -716,7 +740,8 @@ Fixpoint seq_verdicts (p : N) (k fl hooks : Z) (conn closed : bool) (ops : list 
             | VL [o; t; late] =>
                 let a' := [VI k; vbool conn; VI fl; VI hooks; rq; (if closed then closed_script_val kd scv else scv); want] in
                 let v := verdict_cdo p a' (VL [o; t]) in
-                if (p =? 7) && negb (late_consistent kd a' o late (v =? HOLDS)) then VIOLATES else v
+                if ((p =? 7) || (p =? 12)) && negb (late_consistent kd a' o late ((p =? 7) && (v =? HOLDS)))
+                then VIOLATES else v
             | _ => VIOLATES
             end
         | _, _ => NOT_JUDGED
